@@ -187,6 +187,18 @@ class Env:
         return Env(self)
 
 
+def project(nf, i, n=None):
+    """component i of a tuple-valued normal form: literal tuples are indexed, conditionals are distributed over"""
+    if isinstance(nf, tuple):
+        if nf[0] == "tuple" and (n is None or len(nf[1]) == n) and i < len(nf[1]):
+            return nf[1][i]
+        if nf[0] == "ifelse":
+            return ("ifelse", nf[1], project(nf[2], i, n), project(nf[3], i, n))
+        if nf[0] == "match":
+            return ("match", nf[1], tuple((lab, project(v, i, n)) for lab, v in nf[2]))
+    return ("field", nf, str(i))
+
+
 def bind_pattern(pat, nf, env):
     """Bind the variables of a pattern to projections of `nf`."""
     k = pat.get("k")
@@ -197,9 +209,8 @@ def bind_pattern(pat, nf, env):
     elif k in ("Ref", "Box", "Deref"):
         bind_pattern(pat["pat"], nf, env)
     elif k == "Tuple":
-        literal = nf[0] == "tuple" and len(nf[1]) == len(pat["pats"])
         for i, p in enumerate(pat["pats"]):
-            bind_pattern(p, nf[1][i] if literal else ("field", nf, str(i)), env)
+            bind_pattern(p, project(nf, i, len(pat["pats"])), env)
     elif k == "TupleStruct":
         vp = (pat["path"].get("path") or "?").rsplit("::", 1)[-1]
         pats = pat["pats"]
@@ -354,6 +365,14 @@ def _literal_match(arms):
     return True
 
 
+def _matches_macro(arms):
+    """`match x { P => true, _ => false }` (what `matches!` expands to)"""
+    if len(arms) != 2 or any(a.get("guard") for a in arms) or arms[1]["pat"].get("k") != "Wild":
+        return False
+    bodies = [H.strip(a["body"]) for a in arms]
+    return all(b.get("k") == "Lit" and b.get("lit") == "bool" for b in bodies)
+
+
 def _bool_patterns(arms):
     """every arm pattern is a wildcard or a tuple of boolean literals / wildcards, without guards"""
     if not arms:
@@ -451,6 +470,11 @@ class NF:
                 env_a = env.child()
                 bind_pattern(a["pat"], scrut, env_a)
                 arms.append((pat_label(a["pat"]), self.nf(a["body"], env_a)))
+            if len(arms) == 2 and not any(a.get("guard") for a in e["arms"]) and arms[1][0] == "_" \
+                    and arms[0][1] in (("lit", True), ("lit", False)) and arms[1][1] == ("lit", not arms[0][1][1]):
+                # `matches!(x, P)`: a test of the shape of x
+                t = ("islet", arms[0][0], scrut)
+                return t if arms[0][1][1] else ("not", t)
             if _literal_match(e["arms"]):
                 v = arms[-1][1]
                 for a, (_, val) in reversed(list(zip(e["arms"], arms))[:-1]):
@@ -1521,7 +1545,7 @@ class CallExpander:
             if x.get("k") == "Ret" and id(x) not in folded:
                 return None
             if x.get("k") == "Match" and option_match([pat_label(a["pat"]) for a in x.get("arms", [])], x.get("arms", [])) is None \
-                    and not _bool_patterns(x.get("arms", [])) and not _literal_match(x.get("arms", [])):
+                    and not _bool_patterns(x.get("arms", [])) and not _literal_match(x.get("arms", [])) and not _matches_macro(x.get("arms", [])):
                 return None  # only matches that read as if/else (option, tuple of booleans); tables and variant dispatch stay opaque calls
         v = self.NF.nf(nb["value"], env)
         if any(r[0] in ("unknown", "local") for r in nf_roots(v)):
@@ -1591,6 +1615,17 @@ def _canon_hole(p, CE, limit):
         return [([("lit", e[1])], ())]
     if k == "format":
         return canon_parts([(q if q[0] == "lit" else (("hole",) + tuple(q[1:]) + (("?",) if len(q) < 4 else ()))) for q in e[1]], CE, limit)
+    if k == "match" and 2 <= len(e[2]) <= 6:
+        out = []
+        failed = ()
+        for lab, val in e[2]:
+            wild = lab.rsplit("::", 1)[-1] == "_" or (lab.isidentifier() and lab.islower())
+            here = failed if wild else failed + (("alt", ("islet", lab, e[1]), True),)
+            for sp, sc in _canon_hole(("hole", val, tr, ty), CE, limit):
+                out.append((sp, here + sc))
+            if not wild:
+                failed = failed + (("alt", ("islet", lab, e[1]), False),)
+        return out[:limit]
     if k == "ifelse" and isinstance(e[2], tuple) and isinstance(e[3], tuple) and _literal_only(e[2]) == _literal_only(e[3]):
         a = _canon_hole(("hole", e[2], tr, ty), CE, limit)
         b = _canon_hole(("hole", e[3], tr, ty), CE, limit)
